@@ -187,7 +187,9 @@ func (w *World) parseContractFile(path, pkgRel string) error {
 			curLemma = nil
 			key, rest2 := splitWord(rest)
 			c := &Contract{Key: key, PkgRel: pkgRel, Loops: map[int]*LoopSpec{}, Nilable: map[string]bool{}, File: path, Line: rl.line}
-			if !strings.Contains(key, "/") && !strings.HasPrefix(key, pkgRel+".") {
+			if strings.HasPrefix(key, "std:") {
+				c.Key = strings.TrimPrefix(key, "std:")
+			} else if !strings.Contains(key, "/") && !strings.HasPrefix(key, pkgRel+".") {
 				// keys are written relative to the file's package: "cutRun" or "Output.Recompute"
 				c.Key = pkgRel + "." + key
 			}
